@@ -141,6 +141,13 @@ fn syntax(sink: &mut Sink, o: &Opts) {
         let m = gen::mapping(&mut rng, &gen::MapCfg::default());
         pool.extend(lines_with_terminators(&m).iter().map(|l| l.to_vec()));
     }
+    // very long tokens (above 64 KiB): a scanner must not have a token length limit
+    let long = |c: &str, n: usize| c.repeat(n / c.len() + 1);
+    pool.push(format!("{} -> a:\n", long("com.example.VeryLongName.", 70_000)).into_bytes());
+    pool.push(format!("    1:2:void m({}):3:4 -> n\n", long("java.lang.String,", 66_000)).into_bytes());
+    pool.push(format!("    int f -> {}\n", long("x", 65_536)).into_bytes());
+    pool.push(format!("# key: {}\n", long("v", 65_535)).into_bytes());
+    pool.push(format!("    {} f -> g\n", long("T", 65_540)).into_bytes());
     // mutants of pool lines
     let base = pool.len();
     for _ in 0..(base / 4) {
@@ -185,7 +192,27 @@ fn stream_event(src: &[u8], splits: &[usize]) -> Value {
         .iter()
         .map(|k| json!({"k": k, "a": items_of(&src[..k - 1]), "b": items_of(&src[*k..])}))
         .collect();
-    json!({"src": enc::bytes(src), "items": items_of(src), "splits": sp})
+    // the other ways to walk the iterator (nth / skip / count / last) must agree with next()
+    let n_items = ProguardMapping::new(src).iter().take(src.len() + 2).count();
+    let mut nth = vec![];
+    for k in [0usize, 1, 2, n_items.saturating_sub(1), n_items] {
+        let src2 = src.to_vec();
+        let got = guarded(move || match ProguardMapping::new(&src2).iter().nth(k) {
+            None => json!([]),
+            Some(r) => json!([enc::record(&r)]),
+        })
+        .unwrap_or_else(|p| json!([{"k": "panic", "msg": p}]));
+        let src3 = src.to_vec();
+        let skipped = guarded(move || ProguardMapping::new(&src3).iter().skip(k).take(src3.len() + 2).count()).unwrap_or(usize::MAX);
+        nth.push(json!({"k": k, "got": got, "after_skip": skipped}));
+    }
+    let src4 = src.to_vec();
+    let last = guarded(move || match ProguardMapping::new(&src4).iter().last() {
+        None => json!([]),
+        Some(r) => json!([enc::record(&r)]),
+    })
+    .unwrap_or_else(|p| json!([{"k": "panic", "msg": p}]));
+    json!({"src": enc::bytes(src), "items": items_of(src), "splits": sp, "nth": nth, "count": n_items, "last": last})
 }
 
 /// C06: what iter() yields for whole strings and for both sides of line-feed split points
@@ -678,9 +705,19 @@ fn cache(sink: &mut Sink, o: &Opts) {
                 // history: a write that fails at sink call i (and one whose sink panics) must not influence
                 // the writes that follow it in the same process
                 for fail_at in [0usize, 1, 2, 3, 5, 8] {
-                    let _ = crate::sink::run(src, [vec![1 << 30; fail_at], vec![-2]].concat(), 1 << 30);
+                    let o = crate::sink::run(src, [vec![1 << 30; fail_at], vec![-2]].concat(), 1 << 30);
+                    if o.ok {
+                        // a write that reported success delivered the file, whatever the sink did
+                        copies.push(o.sink.data);
+                    }
                     if let Ok(b) = crate::handles::write_cache(src) {
                         copies.push(b);
+                    }
+                }
+                for cap in [1i64, 3, 7] {
+                    let o = crate::sink::run(src, vec![], cap);
+                    if o.ok {
+                        copies.push(o.sink.data);
                     }
                 }
                 {
@@ -782,9 +819,13 @@ fn within(hay: &[u8], s: &str) -> bool {
 /// be a slice of the buffer or of the query
 fn probe_cache(buf: &[u8], queries: &[(String, String, usize, String)]) -> Vec<Value> {
     let mut out = vec![];
-    let cache = match proguard::ProguardCache::parse(buf) {
-        Ok(c) => c,
-        Err(_) => return out,
+    let cache = match guarded(std::panic::AssertUnwindSafe(|| proguard::ProguardCache::parse(buf))) {
+        Ok(Ok(c)) => c,
+        Ok(Err(_)) => return out,
+        Err(p) => {
+            out.push(json!({"status": "panic", "provenance_ok": true, "frames": 0, "line": [0], "detail": format!("parse: {p}")}));
+            return out;
+        }
     };
     for (class, method, line, params) in queries {
         let c = std::panic::AssertUnwindSafe(&cache);
@@ -983,6 +1024,14 @@ fn xver(sink: &mut Sink, o: &Opts) {
         for _ in 0..4 {
             qs.push(json!({"t": "text", "text": enc::s(&gen::trace_text(&mut rng, &uni))}));
             qs.push(json!({"t": "sig", "sig": enc::s(&gen::descriptor(&mut rng, &uni))}));
+        }
+        // systematic: every (class, method, parameter string) of the first few names
+        for class in uni.classes.iter().take(6) {
+            for method in uni.methods.iter().take(6) {
+                for a in uni.args.iter().take(3) {
+                    qs.push(json!({"t": "frame", "frame": {"class": enc::s(class), "method": enc::s(method), "line": [0], "file": [], "params": [enc::s(a)]}}));
+                }
+            }
         }
         for (wname, bytes) in [("pinned", crate::xver::pinned::write(src)), ("current", crate::xver::current::write(src))] {
             let Ok(bytes) = bytes else {
@@ -1257,6 +1306,27 @@ fn soup(sink: &mut Sink, o: &Opts) {
             Ok(true) => {}
             Ok(false) => failing.push(json!({"arg": enc::s(&s), "what": "mapper and cache disagree"})),
             Err(p) => failing.push(json!({"arg": enc::s(&s), "what": format!("panic: {p}")})),
+        }
+    }
+    // long repetitions of every token inside otherwise valid descriptors (counters, recursion, buffers)
+    for t in sig_tokens.iter().chain(["La/b;", "[[", "IJ"].iter()) {
+        for n in [255usize, 256, 257, 300, 65_536] {
+            for s in [format!("({})V", t.repeat(n)), format!("(){}I", t.repeat(n)), format!("({}I)V", t.repeat(n)), format!("(){}La;", t.repeat(n))] {
+                tried += 1;
+                let (m, c) = (std::panic::AssertUnwindSafe(&mapper), std::panic::AssertUnwindSafe(&cache));
+                let s2 = s.clone();
+                let r = guarded(move || {
+                    let a = m.deobfuscate_signature(&s2).map(|d| (d.parameters_types().count(), d.return_type().len(), d.format_signature().len()));
+                    let b = c.deobfuscate_signature(&s2).map(|d| (d.parameters_types().count(), d.return_type().len(), d.format_signature().len()));
+                    a == b
+                });
+                let short = format!("{} x {} in {}", t, n, s.chars().take(8).collect::<String>());
+                match r {
+                    Ok(true) => {}
+                    Ok(false) => failing.push(json!({"arg": enc::s(&short), "what": "mapper and cache disagree"})),
+                    Err(p) => failing.push(json!({"arg": enc::s(&short), "what": format!("panic: {p}")})),
+                }
+            }
         }
     }
     failing.truncate(20);
